@@ -5,6 +5,8 @@ line `{"engine": ..., ...}`, one response per output line: `{"ok": {...}}` or
 -/
 import ZenoModel.Driver.SeqEngine
 import ZenoModel.Driver.StoreEngine
+import ZenoModel.Driver.SnapshotEngine
+import ZenoModel.Driver.AlterEngine
 import ZenoModel.Driver.ReportEngine
 import ZenoModel.Driver.RobustEngine
 import ZenoModel.Driver.HeapEngine
@@ -22,6 +24,8 @@ def dispatch (j : Json) : R Json := do
   match (← str j "engine") with
   | "seq" => seqEngine j
   | "store" => storeEngine j
+  | "snapshot" => snapshotEngine j
+  | "alter" => alterEngine j
   | "report" => reportEngine j
   | "robust" => robustEngine j
   | "heap" => heapEngine j
